@@ -13,7 +13,12 @@ RULE = ("configurations (senders x numbered messages, capacity 1-2, Start racing
         "ones, seeded random walks for the larger; each kept execution is replayed step by step in the Coq model and every "
         "distinct terminal observation is judged by oracle_c02 (no two Invoke regions open at once); "
         "a case is non-trivial when its replay reaches a proof-relevant situation (sender CAS failing against an active worker, "
-        "re-check finding messages, push between the empty pop and the idle transition, pill, failing exit CAS)")
+        "re-check finding messages, push between the empty pop and the idle transition, pill, failing exit CAS); some configurations "
+        "run with a throughput budget of 0 or 1 so that the yield of Inbox.run is reached. Further parts: (engine_restart) restarts with "
+        "senders active on real goroutines; (engine_child_busy) a parent poisoned while its child sits in a handler for 2.3 s "
+        "(thorough: 0.3-5.6 s): one Receive call at a time for the child, its Stopped once and before the parent's; (engine_sched) the "
+        "whole engine under the scheduler, random and PCT schedules; (actor_replay) the same executions replayed lock-step in the "
+        "product model Actor.v (inbox x process)")
 EXHAUSTIVE = False
 
 
@@ -22,4 +27,4 @@ class Part(IC.InboxSched):
     prop = 2
 
 
-PARTS = [Part(), IC.DeliverRestart(), PC.ProcSched(), AC.ActorSched()]
+PARTS = [Part(), IC.DeliverRestart(), IC.DeliverChildBusy(), PC.ProcSched(), AC.ActorSched()]
